@@ -14,6 +14,7 @@ import (
 	"sort"
 	"strconv"
 	"strings"
+	"syscall"
 	"time"
 
 	"verif/lib/mc"
@@ -56,7 +57,8 @@ type Run struct {
 	replayFile     string
 	replay         *replayDoc
 	only           string
-	shardI, shardN int // >0 N: this process is child shard I of N
+	Isolate        bool // sharded children run under an address-space limit with a crash journal
+	shardI, shardN int  // >0 N: this process is child shard I of N
 	childOut       string
 
 	parts                       []partStat
@@ -307,6 +309,29 @@ func (r *Run) ExploreSharded(part, bound string, o mc.Opts, n int, body func(*mc
 	if r.shardN > 0 { // child
 		o.Workers = 1
 		o.OnHang = r.onHang(part)
+		if jp := os.Getenv("VERIF_JOURNAL"); jp != "" {
+			jf, err := os.OpenFile(jp, os.O_CREATE|os.O_RDWR|os.O_TRUNC, 0o644)
+			if err == nil {
+				buf := make([]byte, 0, 4096)
+				o.Journal = func(forced []int) {
+					buf = buf[:0]
+					for _, v := range forced {
+						buf = strconv.AppendInt(buf, int64(v), 10)
+						buf = append(buf, ' ')
+					}
+					buf = append(buf, '\n')
+					for len(buf) < 256 {
+						buf = append(buf, ' ')
+					}
+					jf.WriteAt(buf, 0)
+				}
+			}
+		}
+		if lim := os.Getenv("VERIF_AS_LIMIT"); lim != "" {
+			if n, err := strconv.ParseUint(lim, 10, 64); err == nil {
+				syscall.Setrlimit(syscall.RLIMIT_AS, &syscall.Rlimit{Cur: n, Max: n})
+			}
+		}
 		st := mc.Explore(o, body)
 		st.Locals = nil
 		out := childStats{Stats: st}
@@ -325,9 +350,10 @@ func (r *Run) ExploreSharded(part, bound string, o mc.Opts, n int, body func(*mc
 	dir := filepath.Join(Root, ".work", "shards")
 	os.MkdirAll(dir, 0o755)
 	type res struct {
-		st   childStats
-		err  error
-		viol string
+		st    childStats
+		err   error
+		viol  string
+		crash *mc.Failure
 	}
 	results := make([]res, n)
 	done := make(chan int)
@@ -337,11 +363,26 @@ func (r *Run) ExploreSharded(part, bound string, o mc.Opts, n int, body func(*mc
 			out := filepath.Join(dir, fmt.Sprintf("%s-%s-%d.json", r.ID, part, i))
 			os.Remove(out)
 			cmd := exec.Command(os.Args[0], "--tier", r.Tier, "--only", part, "--shard", fmt.Sprintf("%d/%d", i, n), "--child-out", out)
+			jpath := out + ".journal"
 			cmd.Env = append(os.Environ(), "GOMAXPROCS=1")
+			if r.Isolate {
+				cmd.Env = append(cmd.Env, "VERIF_JOURNAL="+jpath, fmt.Sprintf("VERIF_AS_LIMIT=%d", uint64(12)<<30))
+			}
 			ob, err := cmd.CombinedOutput()
+			defer os.Remove(jpath)
 			if err != nil {
 				if strings.Contains(string(ob), "VIOLATION property=") {
 					results[i].viol = string(ob)
+					return
+				}
+				if jb, jerr := os.ReadFile(jpath); r.Isolate && jerr == nil {
+					// the child died (fatal error: out of memory, stack overflow, ...): the journal names the input
+					var ch []int
+					for _, f := range strings.Fields(strings.SplitN(string(jb), "\n", 2)[0]) {
+						v, _ := strconv.Atoi(f)
+						ch = append(ch, v)
+					}
+					results[i].crash = &mc.Failure{Class: "crash", Choices: ch, Detail: "the decoding process died (not a recoverable panic) while executing this input (remaining choices after the prefix are 0): " + tail(string(ob), 1500)}
 					return
 				}
 				results[i].err = fmt.Errorf("shard %d: %v: %s", i, err, tail(string(ob), 2000))
@@ -362,6 +403,12 @@ func (r *Run) ExploreSharded(part, bound string, o mc.Opts, n int, body func(*mc
 	st.Complete = true
 	st.ClassCount = map[string]int64{}
 	for i := range results {
+		if results[i].crash != nil {
+			r.violations++
+			r.file(part, *results[i].crash, nil)
+			st.Complete = false
+			continue
+		}
 		if results[i].viol != "" {
 			fmt.Print(results[i].viol)
 			r.violations++
